@@ -419,8 +419,8 @@ func (e *vTeam) GetEntityType() string { return vTeamType }
 
 type vTeamStrategy struct{}
 
-func (vTeamStrategy) NewEntity() *vTeam                        { return new(vTeam) }
-func (vTeamStrategy) FillEntity(e *vTeam, b *TypedBucket)      { e.Lead = b.GetString("lead") }
+func (vTeamStrategy) NewEntity() *vTeam                         { return new(vTeam) }
+func (vTeamStrategy) FillEntity(e *vTeam, b *TypedBucket)       { e.Lead = b.GetString("lead") }
 func (vTeamStrategy) PersistEntity(e *vTeam, c *PersistContext) { c.SetStringP("lead", e.Lead) }
 
 type vTeamStore struct {
